@@ -16,6 +16,8 @@ FIRST = {
     # third wave (after the rules had been strengthened on the first two) and the first changes for the new C19 check
     "C01-C": "caught", "C01-D": "missed", "C02-C": "missed", "C02-D": "caught", "C03-C": "caught", "C03-D": "missed", "C07-C": "caught", "C07-D": "missed (C02 caught)",
     "C10-C": "caught", "C10-D": "missed", "C12-C": "caught", "C12-D": "missed", "C19-A": "missed", "C19-B": "missed",
+    # fourth wave
+    "C04-C": "caught", "C04-D": "missed (C07, C11 caught)", "C09-C": "caught", "C09-D": "missed", "C11-C": "missed (C10 caught)", "C11-D": "missed",
 }
 
 
